@@ -92,6 +92,7 @@ type FuncEnc struct {
 	seqLen map[string]string // spec-level sequences: element-array term -> length term
 	sentinelVals []string
 	linked map[string]bool
+	cvSeen map[string]bool
 	storeReach map[string][]string // "Type.field" -> reach conditions of direct stores (all frames)
 }
 
@@ -341,7 +342,9 @@ func (fe *FuncEnc) initRef(st *State, r string, T types.Type, v string) {
 func (fe *FuncEnc) hset(st *State, name string, expr string) {
 	k := fe.heapSorts[name]
 	n := fe.fresh(name + "_v")
-	fe.define(n, k, expr)
+	// a declared constant with a defining equation (not a macro): heap versions occur in quantifier patterns
+	fe.declConst(n, k)
+	fe.emit(fmt.Sprintf("(assert (= %s %s))", n, expr))
 	st.heap[name] = n
 }
 
